@@ -3,6 +3,7 @@ package rules
 import (
 	"fmt"
 	"go/token"
+	"go/types"
 	"strings"
 	"time"
 
@@ -21,6 +22,7 @@ func runC17(ctx *core.Ctx) {
 	p := ctx.P
 	ctx.Rule("DL1", "budget: the duration given to context.WithTimeout is time.Until(Deadline) - 2*g with g = 100ms or a twentieth of the remaining time when that is larger; that context and g are what the TestScript stores as ctxt and gracePeriod; the foreground exec waits with waitOrStop(ts.ctxt, cmd, ts.gracePeriod)", 4)
 	ctx.Rule("DL2", "escalation in waitOrStop's goroutine: every path sends exactly once on the result channel (none would hang the caller, two would hang the goroutine); the interrupt is sent only after the context is done; the kill only after the kill-delay timer fired and only when the delay is positive; the caller calls Cmd.Wait and then receives exactly once", 5)
+	ctx.Rule("DL5", "an explicit deadline wins: the testing.T entry point overwrites Params.Deadline only on a path where Params.Deadline.IsZero() was true and the test binary reported a deadline; otherwise the user's deadline would be replaced by the (much later) binary timeout and blocked commands would not be stopped at it", 1)
 	ctx.Rule("DL4", "the context is cancelled by the subtest whose atomic decrement of the reference count reaches zero", 1)
 	runT := ctx.Need("DL1", "testscript", "RunT")
 	wos := ctx.Need("DL2", "testscript", "waitOrStop")
@@ -165,6 +167,36 @@ func runC17(ctx *core.Ctx) {
 		ctx.Check(okExec, "DL1", "testscript.exec#waitOrStop-args", execF.Pos(), "the foreground command is waited for with the script's context and grace period (a zero or negative delay would never escalate to Kill)")
 		ctx.OKTrivial("DL1", "testscript#budget-count", runT.Pos(), "budget rules instantiated")
 	}
+	// ---- DL5
+	if run := ctx.Need("DL5", "testscript", "Run"); run != nil {
+		rg := graph(p, run)
+		n := 0
+		rg.Instrs(func(i ssa.Instruction) {
+			st, ok := i.(*ssa.Store)
+			if !ok {
+				return
+			}
+			fa, ok := st.Addr.(*ssa.FieldAddr)
+			if !ok || ssax.FieldOf(fa) == nil || ssax.FieldOf(fa).Name() != "Deadline" || !isNamed(fa.X.Type(), tsPkg, "Params") {
+				return
+			}
+			n++
+			facts := rg.FactsAtInstr(st)
+			zero := hasFact(facts, true, func(v ssa.Value) bool {
+				c, ok := v.(*ssa.Call)
+				return ok && ssax.CalleeName(&c.Call) == "(time.Time).IsZero" && isFieldLoad("Deadline")(c.Call.Args[0])
+			})
+			var dl *ssa.Call
+			for _, c := range rg.Instrs2Calls(func(c *ssa.Call) bool { return !c.Call.IsInvoke() && ssax.CalleeName(&c.Call) == "(*testing.common).Deadline" || ssax.CalleeName(&c.Call) == "(*testing.T).Deadline" }) {
+				dl = c
+			}
+			has := dl != nil && hasFact(facts, true, isVal(ssax.Extracted(dl, 1))) && st.Val == ssax.Extracted(dl, 0)
+			ctx.Check(zero && has, "DL5", "testscript.Run#deadline-default"+itoa(n), st.Pos(), "Params.Deadline is overwritten only when it was zero (%v) and with a deadline the test binary reported (%v)", zero, has)
+		})
+		if n == 0 {
+			ctx.Note("DL5", "testscript.Run#deadline-default", run.Pos(), "Run never overwrites Params.Deadline")
+		}
+	}
 	// ---- DL2
 	{
 		var gor *ssa.Function
@@ -173,6 +205,8 @@ func runC17(ctx *core.Ctx) {
 			if gi, ok := i.(*ssa.Go); ok {
 				if mc, ok := gi.Call.Value.(*ssa.MakeClosure); ok {
 					gor = mc.Fn.(*ssa.Function)
+				} else if f := gi.Call.StaticCallee(); f != nil && core.InModule(f) && f.Blocks != nil {
+					gor = f
 				}
 			}
 		})
@@ -181,13 +215,25 @@ func runC17(ctx *core.Ctx) {
 		} else {
 			ctx.Seen(gor)
 			g := graph(p, gor)
+			// the result channel and the delay are recognised by type (the watcher has one
+			// error channel and one duration), whether captured or passed as parameters
 			isErrc := func(v ssa.Value) bool {
-				u, ok := v.(*ssa.UnOp)
-				if !ok {
+				ch, ok := v.Type().Underlying().(*types.Chan)
+				return ok && types.Identical(ch.Elem(), types.Universe.Lookup("error").Type())
+			}
+			isDelay := func(v ssa.Value) bool {
+				if !isNamed(v.Type(), "time", "Duration") {
 					return false
 				}
-				fv, ok := u.X.(*ssa.FreeVar)
-				return ok && fv.Name() == "errc"
+				if u, ok := v.(*ssa.UnOp); ok {
+					_, isFV := u.X.(*ssa.FreeVar)
+					return isFV
+				}
+				switch v.(type) {
+				case *ssa.Parameter, *ssa.FreeVar:
+					return true
+				}
+				return false
 			}
 			// enumerate paths (the goroutine has no loops)
 			type st struct {
@@ -231,19 +277,15 @@ func runC17(ctx *core.Ctx) {
 								bad = append(bad, "Kill before the kill-delay timer fired")
 							}
 							// guarded by killDelay > 0
-							if !cmpFact(g.FactsAtInstr(x), token.GTR, func(v ssa.Value) bool {
-								u, ok := v.(*ssa.UnOp)
-								if !ok {
-									return false
-								}
-								fv, ok := u.X.(*ssa.FreeVar)
-								return ok && fv.Name() == "killDelay"
-							}, isConstIntV(0)) {
+							if !cmpFact(g.FactsAtInstr(x), token.GTR, isDelay, isConstIntV(0)) {
 								bad = append(bad, "Kill not guarded by killDelay > 0")
 							}
 						}
 					case *ssa.Return:
 						paths++
+						if s.afterTimer && !s.kill {
+							bad = append(bad, fmt.Sprintf("path %s: the kill-delay timer fired but the process is not killed (a command that ignores the interrupt then runs past the deadline)", ssax.TrailString(s.trail)))
+						}
 						if s.sends != 1 {
 							bad = append(bad, fmt.Sprintf("path %s sends %d times on the result channel", ssax.TrailString(s.trail), s.sends))
 						}
@@ -299,10 +341,8 @@ func runC17(ctx *core.Ctx) {
 			// timer duration is killDelay
 			okTimer := false
 			for _, c := range g.Calls("time.NewTimer", "time.After", "time.AfterFunc") {
-				if u, ok := c.Call.Args[0].(*ssa.UnOp); ok {
-					if fv, ok := u.X.(*ssa.FreeVar); ok && fv.Name() == "killDelay" {
-						okTimer = true
-					}
+				if isDelay(c.Call.Args[0]) {
+					okTimer = true
 				}
 			}
 			ctx.Check(okTimer, "DL2", "testscript.waitOrStop$1#timer", gor.Pos(), "the escalation timer runs for killDelay")
